@@ -29,8 +29,8 @@ R = Run("C18",
         "Unit arithmetic/get_base_equivalent/as_coeff_unit/simplify/copy: every operand's root-buffer bytes, "
         "dtype, shape, unit, name compared before/after; (B) in-place calls -- convert_to_*, augmented "
         "assignment, ufuncs with out= (out aliasing input 0, input 1, a second view of an input, a fresh "
-        "junk-unit array; integer/unsigned/float/complex), reduce/accumulate out=, item assignment, handlers "
-        "with out= and in-place handlers, with valid operands and with injected faults (dimension mismatch, "
+        "junk-unit array; integer/unsigned/float/complex), reduce/accumulate/at out=, item assignment, handlers "
+        "with out= and in-place handlers (same units: C06 catalogue; different commensurable units: 70 calls), with valid operands and with injected faults (dimension mismatch, "
         "unknown unit, irreducible unit, invalid equivalence, non-dimensionless exponent, offset-temperature "
         "refusal, 1-byte integers) at every operand position: after a raise every operand is unchanged; after "
         "success only target elements changed and the target equals the copying call on an independent build. "
@@ -538,7 +538,6 @@ def run_binary_ufuncs():
                             inplace("ufunc-method-out", (n, "at", ""), S, "np.%s.at(a, [0], b.ravel()[0])" % n,
                                     [("a", "r", "copy")], "r = a.copy(); r[0:1] = np.%s(a[0:1], b.ravel()[0])" % n)
                     if uf.nout == 1:
-                        tg = [("r", "copy")]
                         if ua is not None:
                             inplace("ufunc-out", opid + ("out=a",), S, "np.%s(a, b, out=a)" % n, [("a", "r", "copy")], "r = " + call)
                             inplace("ufunc-out", opid + ("out=view-of-a",), S, "np.%s(a, b, out=o)" % n, [("o", "r", "copy")], "r = " + call,
@@ -557,7 +556,6 @@ def run_binary_ufuncs():
                             inplace("ufunc-out", opid + ("out=bare",), S, "np.%s(a, b, out=o)" % n, [("o", "r", None)], "r = " + call,
                                     pre="o = np.full(np.broadcast(np.asarray(a), np.asarray(b)).shape, 7, dtype=np.asarray(a).dtype)", copy_pre="")
                             inplace("ufunc-out", opid + ("swapped:out=a",), S, "np.%s(b, a, out=a)" % n, [("a", "r", "copy")], "r = np.%s(b, a)" % n)
-                        del tg
                     elif uf.nout == 2:
                         if ua is not None:
                             inplace("ufunc-out", opid + ("out=(a,fresh)",), S, "np.%s(a, b, out=(a, o))" % n,
@@ -755,6 +753,8 @@ MIXED_INPLACE = [
 def run_mixed_handlers():
     for ua, ub in (("cm", "m"), ("m", "km"), ("degC", "degF"), ("K", "degC"), ("cm", "s"), ("g/cm**3", "kg/m**3"), ("degree", "rad"), ("statC", "C")):
         for dt in DTS:
+            if ua == "statC" and np.dtype(dt).kind in "iu":
+                continue        # 1 C = 3e9 statC overflows the integer item assignment (undefined cast)
             for ka, kb in (("strided", "rev"), ("slice", "strided")) if not R.thorough else itertools.product(["strided", "slice", "rev", "T"], repeat=2):
                 rng = rng_for("mixed", ua, ub, dt, ka, kb)
                 S = {"a": spec(dt, ka, L.draw_values(rng, dt, (5,), positive=True), ua), "b": spec(dt, kb, L.draw_values(rng, dt, (5,), positive=True), ub)}
